@@ -85,7 +85,7 @@ fn boundary_values(f: &str) -> Vec<i128> {
 }
 
 fn run_i2f(a: &Args) {
-    let mut st = Stream::new(&a.out, "i2f");
+    let mut st = Stream::new(&a.out, if NOSTD { "i2f_nostd" } else { "i2f" });
     let mut rng = Rng::new(a.seed, "i2f");
     let n_rand = if a.thorough() { 30_000 } else { 2_000 };
     let n_native: u64 = if a.thorough() { 2_000_000 } else { 50_000 };
@@ -192,7 +192,7 @@ fn f2i_expect(fname: &str, d: &str, b: u64) -> Option<i128> {
 }
 
 fn run_f2i(a: &Args) {
-    let mut st = Stream::new(&a.out, "f2i");
+    let mut st = Stream::new(&a.out, if NOSTD { "f2i_nostd" } else { "f2i" });
     let mut rng = Rng::new(a.seed, "f2i");
     let n_rand = if a.thorough() { 60_000 } else { 4_000 };
     for &s in ["f32", "f64"].iter() {
@@ -328,10 +328,18 @@ fn run_f2f(a: &Args) {
     st.finish();
 }
 
+/// built inside /verif/harness_nostd (dasp_sample without its `std` feature)?
+const NOSTD: bool = cfg!(feature = "nostd");
+
 fn main() {
     let a = Args::parse();
+    if a.stream.ends_with("_nostd") != NOSTD {
+        if NOSTD { eprintln!("stream {} needs the std build", a.stream); std::process::exit(2); }
+        delegate_nostd("c02_nostd");
+    }
     match a.stream.as_str() {
-        "i2f" => run_i2f(&a),
+        "i2f" | "i2f_nostd" => run_i2f(&a),
+        "f2i_nostd" => run_f2i(&a),
         "f2i" => run_f2i(&a),
         "f2f" => run_f2f(&a),
         s => { eprintln!("unknown stream {}", s); std::process::exit(2); }
